@@ -140,16 +140,28 @@ func txHugeGasInvalid(n nonceBook, a *evmkit.Account, to common.Address, below u
 	return txDef{"huge-gas-unaffordable", evmkit.Sign(a, spec)}
 }
 
-// Clock fixture (hand-assembled, 25 bytes of runtime): any call stores the
-// block context the EVM sees into storage, so that the state root depends on it:
+// Clock fixture (hand-assembled runtime): any call stores the block context
+// the EVM sees into storage, so that the state root depends on it:
 //
 //	42 6000 55            TIMESTAMP        -> slot 0
 //	43 6001 55            NUMBER           -> slot 1
 //	41 6002 55            COINBASE         -> slot 2
 //	6001 43 03 40 6003 55 BLOCKHASH(NUMBER-1) -> slot 3
 //	45 6004 55            GASLIMIT         -> slot 4
+//	60kk 43 03 40 60ss 55 BLOCKHASH(NUMBER-k) -> slot 0x10+k   for k = 0, 2, 3, 4, 5, 6, 7
+//	6001 43 01 40 6018 55 BLOCKHASH(NUMBER+1) -> slot 0x18
 //	00                    STOP
-const clockRuntimeHex = "42600055" + "43600155" + "41600255" + "6001430340600355" + "45600455" + "00"
+//
+// (every depth a chain of 6 blocks can reach, the block itself and the next one:
+// whatever BLOCKHASH answers for an older block must not depend on which blocks
+// the executing process lifetime has seen; k > NUMBER wraps around and reads 0)
+var clockRuntimeHex = func() string {
+	s := "42600055" + "43600155" + "41600255" + "6001430340600355" + "45600455"
+	for _, k := range []int{0, 2, 3, 4, 5, 6, 7} {
+		s += fmt.Sprintf("60%02x43034060%02x55", k, 0x10+k)
+	}
+	return s + "6001430140601855" + "00"
+}()
 
 func clockInit() []byte {
 	rt := common.Hex2Bytes(clockRuntimeHex)
@@ -180,6 +192,41 @@ func buildChain(name string) (*chainDef, error) {
 		cd.Blocks = [][]txDef{
 			{txKV(n, b, "kv-put", "k1", "v1")},
 			{},
+		}
+	case name == "K24":
+		// many key-value transactions on DISTINCT keys in one block (three senders, interleaved), then
+		// overwrites of some of them in another order next to new keys, then an empty block: the
+		// records of a block enter ReceiptsHash as a list, and every replica must build the same list
+		var b1, b2 []txDef
+		snd := []*evmkit.Account{a, b, c}
+		for i := 0; i < 24; i++ {
+			b1 = append(b1, txKV(n, snd[i%3], "kv-put", fmt.Sprintf("key-%02d", i), fmt.Sprintf("v%d", i)))
+		}
+		for i := 0; i < 9; i++ {
+			b2 = append(b2, txKV(n, snd[(i+1)%3], "kv-overwrite", fmt.Sprintf("key-%02d", 23-2*i), fmt.Sprintf("w%d", i)))
+			b2 = append(b2, txKV(n, snd[(i+2)%3], "kv-put", fmt.Sprintf("new-%02d", i), fmt.Sprintf("n%d", i)))
+		}
+		cd.Blocks = [][]txDef{b1, b2, {}}
+	case name == "H":
+		// the Clock fixture deployed in block 1 and called in blocks 3 and 4 (BLOCKHASH of every
+		// depth the chain has): the smallest chain on which a restart can change what BLOCKHASH of
+		// an older block answers
+		mk, clock := txCreateClock(n, a)
+		cd.Blocks = [][]txDef{
+			{mk},
+			{},
+			{txCallClock(n, b, clock)},
+			{txCallClock(n, a, clock), txCallClock(n, c, clock)},
+		}
+	case name == "S":
+		// k = 1, 2, 3 transactions whose signature cannot be recovered (r = 0 / high-s, they decode
+		// fine) FOLLOWED by a good transaction, and 3 of them at the very end of a block: every
+		// replica must finish these blocks whatever its number of signature-checking goroutines
+		cd.Blocks = [][]txDef{
+			{txBadSig(n, b, st, 1), txTransfer(n, a, c.Addr, 1)},
+			{txBadSig(n, b, st, 0), txBadSig(n, c, st, 1), txKV(n, b, "kv-put", "k1", "v1")},
+			{txBadSig(n, a, st, 1), txBadSig(n, b, st, 1), txKVBadSig(n, c, "k9", "never"), txTransfer(n, a, b.Addr, 2), txKV(n, c, "kv-put", "k2", "v2")},
+			{txTransfer(n, b, c.Addr, 1), txBadSig(n, a, st, 0), txBadSig(n, b, st, 1), txBadSig(n, c, st, 0)},
 		}
 	case name == "A":
 		b1 := []txDef{txCreate(n, a), txTransfer(n, a, c.Addr, 5), txKV(n, b, "kv-put", "k1", "v1")}
